@@ -5,6 +5,7 @@ V = os.path.dirname(os.path.dirname(os.path.abspath(__file__)))
 props = [json.loads(l) for l in open(os.path.join(V, "properties.jsonl"))]
 
 A_NOTE = "Inputs come from the structured finite alphabets of DESIGN.md section 3 (keys, nonce seeds, message lengths/classes, footers, assertions), not from {0,1}^256 or UTF-8*; cryptographic strength is not claimed. Hooks: RNG tap + frozen clock under --cfg rusty_paseto_verif; each affected check also runs a free-running pass."
+B_NOTE = "The reference model only drives the search: every transition replays the call history on the real object (frozen clock H2, scripted RNG H1, re-installed on every replay) and the verdict of that replay is what the `always` properties read. States are merged on the model state; that merge is cross-checked by the unmerged engine-A enumeration of call sequences through the same judge. stateright 0.31's BFS and fingerprinting are trusted."
 CHECKS = {
  "C01": dict(engine="A-choice-tree", design_ref="5/C01",
    technique="stateless exhaustive enumeration of a choice tree (deviation bounds 0,1,2 then full cartesian product), one execution of the real crate per path, identity oracle",
@@ -54,6 +55,26 @@ CHECKS = {
    technique="exhaustive enumeration of the RFC 3339 rendering space of instants around a frozen clock (hook H2), each carried by a real token and parsed by the default parser; independent RFC 3339 reference as oracle",
    text="Same space as C11 for nbf with the direction reversed: reject iff instant > now, accept iff instant < now (strict strings; either verdict at equality), reject non-null non-timestamps, accept tokens without nbf; the 16 independent (exp, nbf) combinations.",
    note="R4 (own integer-arithmetic RFC 3339 reader) is the oracle. " + A_NOTE),
+ "C13": dict(engine="B-stateright", design_ref="5/C13",
+   technique="explicit-state BFS (stateright) to closure over a reference model of PasetoBuilder with every transition replayed on the real builder under a frozen clock; plus unmerged exhaustive enumeration of call sequences to depth 4 (quick) / 5 (thorough)",
+   text="All reachable states of the builder model (per key supplied 0/1/2+ times and last value, acknowledged, footer/assertion, builds 0/1/2+) under actions {set_claim(k,v), acknowledgement, set_footer(+assertion), build}; after every build of every replayed history the payload (read back at the core layer) must carry exp unless acknowledged, never carry it if acknowledged, default exp = iat + 1 h exactly and default iat = nbf = the frozen creation instant - on the first, second and later builds.",
+   note=B_NOTE),
+ "C14": dict(engine="B-stateright", design_ref="5/C14",
+   technique="explicit-state BFS (stateright) to closure over a key->value map model of GenericBuilder, every transition replayed on the real builder, built and parsed back; plus unmerged sequence enumeration",
+   text="Reachable states of the claim-map model over custom keys (quotes/newline, non-BMP, Cyrillic, blank) x a 15-element JSON value alphabet (Unicode string, empty, integers incl. u64::MAX, 1.5, bool, null, arrays, depth-5 object, native struct / Option / map) x 3 constructor forms, remove_claim and the 7 typed registered claims: the object returned by a validator-free parser must equal the model map (same key set, JSON-equal values, last write wins, removed claims absent). v4.local full alphabet; other protocols reduced alphabet.",
+   note=B_NOTE),
+ "C15": dict(engine="B-stateright", design_ref="5/C15",
+   technique="explicit-state BFS (stateright) to closure over the parser-configuration model, every transition replayed on the real parser against a pool of tokens; plus exhaustive enumeration of the (token claim set, expected set) product and of unmerged configuration sequences",
+   text="Reachable configurations (per key: expectation none/v1/v2, validator none/accept/reject/value-dependent, built-in default validator; routes check_claim, validate_claim, extend_check_claims, extend_validation_claims) for GenericParser, PasetoParser::new() and PasetoParser::default(); with each configuration every pool token (all {absent,v1,v2} combinations, null, unauthentic ones) is parsed by one parser: Ok iff every expected claim is present, non-null and JSON-equal; missing -> missing-claim error; never Ok otherwise; first token re-parsed last must give the same outcome. Plus the full (S,E) product: 4 keys x {absent,v1,v2,null} x {not expected, v1, v2, other JSON type, changed case}.",
+   note=B_NOTE),
+ "C16": dict(engine="B-stateright", design_ref="5/C16",
+   technique="explicit-state BFS (stateright) to closure over the parser-configuration model with logging validators, every transition replayed on the real parser against a pool of authentic and unauthentic tokens",
+   text="Same model as C15 read for the validator clauses: on unauthentic tokens (bit flipped in tag and in content, wrong key, header, footer, assertion) the call log is empty and the error is not a claim error; on authentic tokens every logged call carries the registered key and exactly the payload's value (null when absent), no validator runs twice, Ok iff every registered validator accepts - and then each ran exactly once - else a claim error.",
+   note=B_NOTE + " The built-in default validators cannot be logged and are modelled by their documented behaviour."),
+ "C17": dict(engine="B-stateright", design_ref="5/C17",
+   technique="explicit-state BFS (stateright) to closure over the PasetoBuilder reference model (same model as C13) with every transition replayed on the real builder; plus unmerged exhaustive enumeration of call sequences to depth 4 / 5",
+   text="After any history in which a key was supplied twice every build returns the duplicate-claim error naming a repeated key and no token - on that and every later build (covered to closure, i.e. duplicates arbitrarily far apart and any number of later builds within the capped model); without a repeat every build succeeds and the payload equals the defaults overridden by the supplied values (minus exp if acknowledged); exp after acknowledgement may be refused or ignored.",
+   note=B_NOTE),
  "C18": dict(engine="A-choice-tree", design_ref="5/C18",
    technique="exhaustive enumeration of all keys of length 0..=4 over an 8-symbol alphabet plus decorated variants of the registered keys x constructor form x value type, and of the strict RFC 3339 rendering grid for the three time-claim constructors, on the real constructors",
    text="CustomClaim construction must fail with the reserved-key error iff the key is byte-equal to one of the seven registered keys, for all three constructor forms and four value types, and otherwise keep key and value verbatim (also read back through a built token). Expiration/NotBefore/IssuedAt constructors must accept every strict RFC 3339 string of the grid (8 dates x 5 times x 13 fraction forms x 2 881 offsets) verbatim and reject every listed string that does not start with an ISO 8601 date.",
@@ -96,7 +117,7 @@ def main():
         },
         "engines": [
             {"name": "A-choice-tree", "path": "harness/src/explore.rs", "serves_properties": ["C01","C02","C03","C04","C05","C06","C07","C08","C09","C10","C11","C12","C18"], "kind_free_text": "stateless exhaustive enumeration of a tree of named finite choice points, one execution of the real crate per path; deviation-bounded and full-product modes"},
-            {"name": "B-stateright", "path": "harness/src/models", "serves_properties": [], "kind_free_text": "stateright 0.31 BFS over a reference model; every transition replays the call history on the real object"},
+            {"name": "B-stateright", "path": "harness/src/models", "serves_properties": ["C13","C14","C15","C16","C17"], "kind_free_text": "stateright 0.31 BFS over a reference model; every transition replays the call history on the real object"},
             {"name": "C-lattice", "path": "c20/run.py", "serves_properties": ["C20"], "kind_free_text": "explicit enumeration of feature configurations / generated client programs with cargo as transition function"},
         ],
         "checks": checks,
